@@ -35,7 +35,9 @@ REQUIRED_THEOREMS = ["window_exact", "total_exact", "trunc_flag_iff", "listing_e
                      "match_no_overread", "block_get_reassembles", "wellknown_eq", "filter_eq_spec", "get_body_eq_listing",
                      "get_reassembles", "get_query_with_space_listed",
                      "interleaved_gets_reassemble", "interleaved_gets_reassemble_of_keyed", "keyed_of_small",
-                     "live_gets_current_listing", "get_after_change", "attr_added_is_listed"]
+                     "live_gets_current_listing", "get_after_change", "attr_added_is_listed",
+                     "blocks_of_one_etag_are_one_listing", "block_under_etag_is_block_of_block0_listing",
+                     "restart_gets_current_listing", "etags_never_reused", "same_key_same_listing", "etag_blocks_reassemble"]
 RULE = ("resource tables built by 0..12 coap_add_resource/coap_delete_resource calls (paths from a small pool so that "
         "re-registration happens, 0..4 attributes with/without value, quoted/unquoted/empty/one-byte/malformed-quote values, "
         "observable / OSCORE-only markers, library-copied or caller-owned exact-size strings) x filters (none, NULL, href/rt/if/rel/"
@@ -370,6 +372,124 @@ def live_lines(rng, n):
     return out
 
 
+def ev_lines(rng, n):
+    """block-level events on ONE context: single Block2 requests of a few transfers (session, SZX, filter, Request-Tag) in any
+    order - next block, restart at block 0, a block out of turn, another SZX in mid-transfer -, table changes (attribute added,
+    observable flag, resource added / replaced / deleted) and lg_xmit timeouts BETWEEN the blocks of a transfer."""
+    out = []
+    while len(out) < n:
+        ents = [e for e in gen_table(rng, rng.choice([1, 2, 2, 3, 4])) if not (e[0] == "+" and e[1] == WK)]
+        if not any(e[0] == "+" for e in ents):
+            continue
+        evs = [enc_table([e]) for e in ents]
+        live = []
+        for e in ents:
+            if e[0] == "+":
+                live = [p for p in live if p != e[1]] + [e[1]]
+            else:
+                live = [p for p in live if p != e[1]]
+        filters = [f for f in gen_filters(rng, ents, 3)[2:] if len(f) <= 2 * 200]
+        xs = []
+        for _ in range(rng.choice([1, 2, 2, 3])):
+            q = "N"
+            if filters and rng.random() < 0.35:
+                q = rng.choice(filters)
+            if xs and rng.random() < 0.3:
+                q = xs[0]["q"]                                   # same key as another transfer
+            xs.append({"sid": rng.choice([0, 0, 1]), "szx": rng.choice([0, 0, 0, 1, 1, 2]), "q": q,
+                       "rt": rng.choice(["N", "N", "N", "01", "02", "0102"]), "next": 0})
+        for _ in range(rng.randint(4, 16)):
+            c = rng.random()
+            if c < 0.62:
+                x = rng.choice(xs)
+                d = rng.random()
+                szx = x["szx"]
+                if d < 0.78:
+                    num = x["next"]
+                elif d < 0.88:
+                    num = 0
+                elif d < 0.95:
+                    num = rng.randint(0, 6)
+                else:
+                    num = x["next"]; szx = rng.choice([0, 1, 2])
+                x["next"] = num + 1
+                evs.append("b%d%d:%d:%s:%s" % (x["sid"], szx, num, x["rt"], x["q"]))
+            elif c < 0.76:
+                p = rng.choice(live) if live and rng.random() < 0.9 else rng.choice(PATHS)
+                if p == WK:
+                    continue
+                evs.append("a%s:%d:%s" % (hx(p), rng.choice([0, 4]), enc_attr(rng.choice(NAMES), gen_value(rng))))
+            elif c < 0.82:
+                p = rng.choice(live) if live and rng.random() < 0.9 else rng.choice(PATHS)
+                if p == WK:
+                    continue
+                evs.append("o%s:%d" % (hx(p), rng.randint(0, 1)))
+            elif c < 0.88:
+                e = [x for x in gen_table(rng, 1) if x[0] == "+" and x[1] != WK]
+                if not e:
+                    continue
+                if live and rng.random() < 0.3:
+                    e[0] = ("+", rng.choice(live), e[0][2], e[0][3])
+                evs.append(enc_table(e))
+                live = [p for p in live if p != e[0][1]] + [e[0][1]]
+            elif c < 0.92 and live:
+                p = rng.choice(live + [b"nope"])
+                evs.append("!" + hx(p))
+                live = [q for q in live if q != p]
+            else:
+                evs.append("t%d" % rng.choice([0, 0, 1]))
+        out.append("wkev " + "/".join(evs))
+    return out
+
+
+def judge_wkev(c):
+    """per block request: a block 0 is the first block of the listing NOW (ETag iff more follows); a response under an ETag
+    is that block of the listing AS IT WAS at the block 0 that carried the ETag first (same session); a later block without
+    ETag is a block of the listing now; errors only for later blocks"""
+    i, s = c["impl"], c["spec"] or ""
+    reqs = [e for e in c["input"].split()[1].split("/") if e[:1] == "b"]
+    ri, rs = ([] if i == "." else i.split(",")), ([] if s == "." else s.split(","))
+    if len(ri) != len(reqs) or len(rs) != len(reqs):
+        return ("spec", "implementation %s for %d block requests (specification: %d listings)" % (short(i), len(reqs), len(rs)))
+    groups = {}
+    for k, (e, a, ls) in enumerate(zip(reqs, ri, rs)):
+        f = e[1:].split(":")
+        sid, szx, num = int(f[0][0]), int(f[0][1]), int(f[1])
+        chunk = 2 * (1 << (szx + 4))                       # hex digits
+        now = "" if ls == "-" else ls
+        if a.startswith("bad"):
+            return ("spec", "block request %d (%s): malformed response %s" % (k, e, a))
+        if a.startswith("e"):
+            if num == 0:
+                return ("spec", "block request %d (%s): a request for block 0 is answered with an error (%s)" % (k, e, a))
+            continue
+        w = a.split(":")
+        pay = "" if w[0] == "-" else w[0]
+        if w[2] == "-":
+            want, wmore = now[num * chunk:(num + 1) * chunk], (num + 1) * chunk < len(now)
+            if num == 0 and len(now) > chunk:
+                return ("spec", "block request %d (%s): first block of a longer body without ETag" % (k, e))
+            what = "the listing at this moment"
+        else:
+            if num == 0:
+                if w[2] in groups:
+                    return ("spec", "block request %d (%s): ETag %s handed out again for a new body" % (k, e, w[2]))
+                groups[w[2]] = (sid, now)
+            if w[2] not in groups:
+                return ("spec", "block request %d (%s): ETag %s was never sent with a block 0" % (k, e, w[2]))
+            gs, body = groups[w[2]]
+            if gs != sid:
+                return ("spec", "block request %d (%s): ETag %s belongs to a transfer of session %d" % (k, e, w[2], gs))
+            want, wmore = body[num * chunk:(num + 1) * chunk], (num + 1) * chunk < len(body)
+            what = "the listing when block 0 of ETag %s was served" % w[2]
+            if num == 0 and not wmore:
+                return ("spec", "block request %d (%s): complete body with an ETag of the block layer" % (k, e))
+        if pay != want or (w[1] == "1") != wmore:
+            return ("spec", "block request %d (%s) yields %s; block %d of %s is %s (M=%d)"
+                    % (k, e, short(a), num, what, short(want or "-"), wmore))
+    return None
+
+
 def match_lines(rng, n, exhaustive):
     out = []
     alpha = [b"a", b"b", b" "]
@@ -440,6 +560,7 @@ def generate(ctx, escalate=False):
                              "full_window_limit": full_limit, "printer_calls": nwin, "tables": ntables}
     out += getx_lines(rng, 2500 if thorough else 400)
     out += live_lines(rng, (4000 if thorough else 700) * (2 if escalate else 1))
+    out += ev_lines(rng, (4000 if thorough else 700) * (2 if escalate else 1))
     out += match_lines(rng, 6000, thorough)
     return out
 
@@ -485,6 +606,10 @@ def judge(ctx, c):
             if a != b:
                 return ("spec", "transfer %d of the interleaving reassembles to %s (body:responses), its own listing is %s"
                         % (k, short(a), short(b)))
+    elif op == "wkev":
+        v = judge_wkev(c)
+        if v:
+            return v
     elif op == "wklive":
         ri, rs = i.split(","), (s or "").split(",")
         if len(ri) != len(rs):
@@ -514,6 +639,8 @@ def nontrivial(c):
         return not s.startswith("F-;")
     if c["input"].startswith("getx"):
         return any(not w.startswith("-:") for w in s.split(","))
+    if c["input"].startswith("wkev"):
+        return ":E0" in (c["model"] or "")                                               # at least one multi-block body
     if c["input"].startswith("wklive"):
         return len(set(w for w in s.split(",") if not w.startswith("-:"))) >= 2      # at least two different non-empty listings
     return s not in ("", "-") and not s.startswith("-:")
@@ -572,7 +699,7 @@ def shrink_live(ctx, case):
         evs = best["input"].split()[1].split("/")
         if len(evs) <= 1:
             break
-        lines = ["wklive " + "/".join(evs[:k] + evs[k + 1:]) for k in range(len(evs))]
+        lines = [best["input"].split()[0] + " " + "/".join(evs[:k] + evs[k + 1:]) for k in range(len(evs))]
         hit = None
         for cc in diff_side(ctx, me, lines):
             v = judge(ctx, cc)
@@ -592,7 +719,7 @@ def shrink(ctx, case):
     p = case["input"].split()
     if p[0] == "getx":
         return shrink_getx(ctx, case)
-    if p[0] == "wklive":
+    if p[0] in ("wklive", "wkev"):
         return shrink_live(ctx, case)
     if p[0] != "wk":
         return case
